@@ -35,6 +35,9 @@ pub struct Policy {
     pub allow_headers: Option<Vec<String>>,
     pub expose_headers: Option<Vec<String>>,
     pub max_age: Option<u32>,
+    /// `.AllowCredentials()` is the last builder call instead of the first (the policy is the same)
+    #[serde(default)]
+    pub credentials_last: bool,
 }
 #[derive(Clone, Debug, Serialize, Deserialize)]
 pub struct Req {
@@ -58,7 +61,7 @@ pub struct Scenario {
     pub earlier: Vec<Policy>,
 }
 
-const HDRS: [&str; 5] = ["Content-Type", "X-Custom", "Authorization", "X-Requested-With", "Accept"];
+const HDRS: [&str; 7] = ["Content-Type", "X-Custom", "Authorization", "X-Requested-With", "Accept", "*", "x_under.score~"];
 
 /// split some multi-method routes into several registration items (same path, disjoint methods)
 fn split_routes(app: &mut AppSpec) -> bool {
@@ -104,7 +107,7 @@ pub fn generate(cfg: &RunCfg, out: &mut Outcome) -> Scenario {
             None
         }
     };
-    let policy = Policy { origin, credentials: t::chance(1, 2), allow_headers: pick_list(), expose_headers: pick_list(), max_age: if t::chance(1, 2) { Some(t::pick(&[0u32, 600, 86_400])) } else { None } };
+    let policy = Policy { origin, credentials: t::chance(1, 2), allow_headers: pick_list(), expose_headers: pick_list(), max_age: if t::chance(1, 2) { Some(t::pick(&[0u32, 600, 86_400])) } else { None }, credentials_last: t::chance(1, 2) };
     let mut g = Gen { next_handler: 0, next_app: 0, next_fang: 0 };
     let mut app = c01::gen_app(&mut g, 0, 0, false);
     if cfg.entering("split-registration") || (!cfg.avoid("split-registration") && t::chance(1, 3)) {
@@ -112,9 +115,51 @@ pub fn generate(cfg: &RunCfg, out: &mut Outcome) -> Scenario {
     } else if cfg.avoid("split-registration") {
         *out.redraws.entry("split-registration".into()).or_insert(0) += 0;
     }
+    // one full path registered by the enclosing application AND by an application mounted there, with other methods
+    // (the statement's "merged across nested applications"): `"/auth".GET(f)` next to `"/auth".By(Ohkami::new("/".POST(g)))`
+    let mut shared_path: Option<String> = None;
+    if t::chance(1, 4) {
+        let statics_only = |p: &str| !p.contains(':');
+        let mount_at = app.items.iter().position(|it| matches!(it, Item::Mount { prefix, .. } if statics_only(prefix)));
+        if let Some(i) = mount_at {
+            let mut parent_methods: Vec<&str> = vec!["GET", "PUT", "POST", "PATCH", "DELETE"];
+            t::shuffle(&mut parent_methods);
+            let n_parent = 1 + t::draw(2) as usize;
+            let (for_parent, for_child) = parent_methods.split_at(n_parent);
+            let for_child = &for_child[..1 + t::draw(2) as usize];
+            let mut hid = 5000;
+            let mut spec = |ms: &[&str]| -> std::collections::BTreeMap<String, appgen::HandlerSpec> {
+                ms.iter()
+                    .map(|m| {
+                        hid += 1;
+                        (m.to_string(), appgen::HandlerSpec { id: hid, n_params: 0, local_fangs: vec![] })
+                    })
+                    .collect()
+            };
+            let child_methods = spec(for_child);
+            let parent_spec = spec(for_parent);
+            if let Item::Mount { prefix, app: child } = &mut app.items[i] {
+                // the mounted application answers at its root with `for_child` (replacing whatever it had there)
+                child.items.retain(|it| !matches!(it, Item::Routes { path, .. } if path == "/"));
+                child.items.push(Item::Routes { path: "/".into(), methods: child_methods });
+                shared_path = Some(prefix.clone());
+            }
+            if let Some(p) = &shared_path {
+                // before or after the mount: registration order must not matter
+                let at = t::draw(app.items.len() as u32 + 1) as usize;
+                app.items.insert(at, Item::Routes { path: p.clone(), methods: parent_spec });
+            }
+        }
+    }
     let table = appgen::table(&app);
     let n = t::range(3, 12) as usize;
-    let base = c01::gen_requests(&table, n);
+    let mut base = c01::gen_requests(&table, n);
+    if let Some(p) = &shared_path {
+        // ask for it
+        for _ in 0..2 {
+            base.push(c01::Req { method: t::pick(&["GET", "PUT", "POST", "PATCH", "DELETE"]).to_string(), path: p.clone(), kind: "path-shared-with-a-mounted-application".into() });
+        }
+    }
     let reqs = base
         .into_iter()
         .map(|r| {
@@ -141,7 +186,7 @@ pub fn generate(cfg: &RunCfg, out: &mut Outcome) -> Scenario {
         .collect();
     let earlier: Vec<Policy> = if t::chance(1, 3) {
         (0..1 + t::draw(2))
-            .map(|_| Policy { origin: if t::chance(2, 3) { "*".to_string() } else { "https://earlier.example".to_string() }, credentials: t::chance(3, 4), allow_headers: None, expose_headers: if t::chance(1, 2) { Some(vec!["X-Earlier".to_string()]) } else { None }, max_age: None })
+            .map(|_| Policy { origin: if t::chance(2, 3) { "*".to_string() } else { "https://earlier.example".to_string() }, credentials: t::chance(3, 4), allow_headers: None, expose_headers: if t::chance(1, 2) { Some(vec!["X-Earlier".to_string()]) } else { None }, max_age: None, credentials_last: false })
             .collect()
     } else {
         Vec::new()
@@ -172,7 +217,7 @@ fn leak(s: &str) -> &'static str {
 
 fn build_cors(p: &Policy) -> CORS {
     let mut c = CORS::new(leak(&p.origin));
-    if p.credentials {
+    if p.credentials && !p.credentials_last {
         c = c.AllowCredentials();
     }
     let arr = |v: &Vec<String>| -> Vec<&'static str> { v.iter().map(|s| leak(s)).collect() };
@@ -196,6 +241,9 @@ fn build_cors(p: &Policy) -> CORS {
     }
     if let Some(m) = p.max_age {
         c = c.MaxAge(m);
+    }
+    if p.credentials && p.credentials_last {
+        c = c.AllowCredentials();
     }
     c
 }
